@@ -94,4 +94,196 @@ inductive ExecLoopB : List BCmd → String → List BCmd → Cfg → Out → Cfg
       ExecLoopB pre g body c (.exit k) c'
 end
 
+/-! ### executable side (driver only): an interpreter for the tree, and the tree of a line list
+
+  `execBs` computes what `ExecBs` relates; `treeOf` rebuilds the tree from the emitted lines (the inverse of `flats` on the
+  shapes the converter emits).  The driver runs `execBs` on `treeOf` of every script of the scalar fragment next to the
+  line-level machine `runPC` and lib/cmdsim.py: the tie of the structured reading to the line-level rules. -/
+
+mutual
+def execB : Nat → BCmd → Cfg → Option (Out × Cfg)
+  | 0, _, _ => none
+  | _ + 1, .simple l, c => stepB l c
+  | f + 1, .guarded n body, c => if c.ρ (flagName n) != "" then execBs f body c else some (.normal, c)
+  | f + 1, .chain _ g thn elifs els, c =>
+      match guardB c.ρ g with
+      | some true => execBs f thn c
+      | some false => execElifsB f elifs els c
+      | none => none
+  | f + 1, .loop _ pre g body, c => execLoopB f pre g body c
+  | _ + 1, .brk, c => some (.brk, c)
+  | _ + 1, .cont, c => some (.cont, c)
+def execBs : Nat → List BCmd → Cfg → Option (Out × Cfg)
+  | 0, _, _ => none
+  | _ + 1, [], c => some (.normal, c)
+  | f + 1, x :: xs, c =>
+      match execB f x c with
+      | some (.normal, c') => execBs f xs c'
+      | r => r
+def execElifsB : Nat → List (String × List BCmd) → Option (List BCmd) → Cfg → Option (Out × Cfg)
+  | 0, _, _, _ => none
+  | _ + 1, [], none, c => some (.normal, c)
+  | f + 1, [], some b, c => execBs f b c
+  | f + 1, (g, b) :: rest, els, c =>
+      match guardB c.ρ g with
+      | some true => execBs f b c
+      | some false => execElifsB f rest els c
+      | none => none
+def execLoopB : Nat → List BCmd → String → List BCmd → Cfg → Option (Out × Cfg)
+  | 0, _, _, _, _ => none
+  | f + 1, pre, g, body, c =>
+      match execBs f pre c with
+      | some (.normal, c1) =>
+          match guardB c1.ρ g with
+          | some false => some (.normal, c1)
+          | some true =>
+              match execBs f body c1 with
+              | some (.normal, c2) => execLoopB f pre g body c2
+              | some (.cont, c2) => execLoopB f pre g body c2
+              | some (.brk, c') => some (.normal, c')
+              | some (.exit k, c') => some (.exit k, c')
+              | none => none
+          | none => none
+      | _ => none
+end
+
+def isCloser : BLine → Bool
+  | .close | .elseOpen | .elseIfOpen _ => true
+  | _ => false
+
+/-- the operand `c` of `if "c" equ "1" (` -/
+def condOf (t : String) : Option String :=
+  match stripPrefix "if \"".toList t.toList with
+  | some rest => (stripSuffix "\" equ \"1\" (".toList rest).map String.ofList
+  | none => none
+
+/-- the loop number of `if defined _fv<n> (` -/
+def flagOf (t : String) : Option Nat :=
+  match stripPrefix "if defined _fv".toList t.toList with
+  | some rest => (stripSuffix " (".toList rest).bind (fun ds => (String.ofList ds).toNat?)
+  | none => none
+
+def labelNum (pre : String) (l : String) : Option Nat :=
+  (stripPrefix pre.toList l.toList).bind (fun ds => (String.ofList ds).toNat?)
+
+mutual
+/-- commands up to a terminator (a closer, or a `goto` in front of a closer), which is not consumed -/
+def parseSeq : Nat → List BLine → Option (List BCmd × List BLine)
+  | 0, _ => none
+  | _ + 1, [] => some ([], [])
+  | f + 1, l :: rest =>
+      if isCloser l then some ([], l :: rest) else
+      match l, rest with
+      | .cgoto lbl, nxt :: _ =>
+          if isCloser nxt then some ([], l :: rest) else
+          match parseSeq f rest with
+          | some (more, rest') => some ((if lbl.startsWith "_e" then BCmd.brk else BCmd.cont) :: more, rest')
+          | none => none
+      | .opn t, _ =>
+          match flagOf t with
+          | some n =>
+              match parseSeq f rest with
+              | some (body, .close :: rest1) =>
+                  match parseSeq f rest1 with
+                  | some (more, rest2) => some (.guarded n body :: more, rest2)
+                  | none => none
+              | _ => none
+          | none =>
+              match condOf t with
+              | some c =>
+                  match parseSeq f rest with
+                  | some (thn, .cgoto lbl :: rest1) =>
+                      match parseTail f lbl rest1 with
+                      | some (elifs, els, rest2) =>
+                          match parseSeq f rest2 with
+                          | some (more, rest3) => some (.chain lbl c thn elifs els :: more, rest3)
+                          | none => none
+                      | none => none
+                  | _ => none
+              | none => none
+      | .clabel lbl, _ =>
+          match labelNum "_f" lbl with
+          | some n =>
+              match parseLoop f n rest [] with
+              | some (cmd, rest1) =>
+                  match parseSeq f rest1 with
+                  | some (more, rest2) => some (cmd :: more, rest2)
+                  | none => none
+              | none => none
+          | none => none
+      | _, _ =>
+          match parseSeq f rest with
+          | some (more, rest') => some (.simple l :: more, rest')
+          | none => none
+/-- `) else if … (` / `) else (` / `)` + label after the first branch of a chain (its `goto` already consumed) -/
+def parseTail : Nat → String → List BLine → Option (List (String × List BCmd) × Option (List BCmd) × List BLine)
+  | 0, _, _ => none
+  | _ + 1, lbl, .close :: .clabel l2 :: rest => if l2 == lbl then some ([], none, rest) else none
+  | f + 1, lbl, .elseOpen :: rest =>
+      match parseSeq f rest with
+      | some (b, .cgoto l1 :: .close :: .clabel l2 :: rest1) => if l1 == lbl && l2 == lbl then some ([], some b, rest1) else none
+      | _ => none
+  | f + 1, lbl, .elseIfOpen t :: rest =>
+      match condOf t with
+      | some c =>
+          match parseSeq f rest with
+          | some (b, .cgoto l1 :: rest1) =>
+              if l1 == lbl then
+                match parseTail f lbl rest1 with
+                | some (elifs, els, rest2) => some ((c, b) :: elifs, els, rest2)
+                | none => none
+              else none
+          | _ => none
+      | none => none
+  | _ + 1, _, _ => none
+/-- a loop after its head label: the lines in front of the test (simple lines and the guarded increment), the test, the body,
+    `goto` head, `)`, end label -/
+def parseLoop : Nat → Nat → List BLine → List BCmd → Option (BCmd × List BLine)
+  | 0, _, _, _ => none
+  | f + 1, n, .opn t :: rest, pre =>
+      match flagOf t with
+      | some m =>
+          match parseSeq f rest with
+          | some (body, .close :: rest1) => parseLoop f n rest1 (pre ++ [.guarded m body])
+          | _ => none
+      | none =>
+          match condOf t with
+          | some c =>
+              match parseSeq f rest with
+              | some (body, .cgoto l1 :: .close :: .clabel l2 :: rest1) =>
+                  if l1 == forLabel n && l2 == endLabel n then some (.loop n pre c body, rest1) else none
+              | _ => none
+          | none => none
+  | f + 1, n, l :: rest, pre => parseLoop f n rest (pre ++ [.simple l])
+  | _ + 1, _, [], _ => none
+end
+
+def treeOf (ls : List BLine) : Option (List BCmd) :=
+  match parseSeq (2 * ls.length + 4) ls with
+  | some (cs, []) => some cs
+  | _ => none
+
+def isHelperEnd : BLine → Bool
+  | .raw t => hasInfix " helper end".toList t.toList
+  | _ => false
+
+def isStartLine : BLine → Bool
+  | .raw t => t == "@echo off" || t == "setlocal EnableDelayedExpansion" || t == "setlocal" || t == "(set LF=^" || t == "" || t == ")"
+  | .set n v => n == "_e" && v == "0"
+  | _ => false
+
+/-- the lines of the program: what stands between the start code / the last helper routine and `:end` -/
+def programLines (ls : List BLine) : List BLine :=
+  let body := (ls.takeWhile (fun l => l != .label "end")).dropWhile isStartLine
+  if body.any isHelperEnd then (body.reverse.takeWhile (fun l => !isHelperEnd l)).reverse else body
+
+/-- run the block tree of a whole script from the store the start code leaves -/
+def runTree (fuel : Nat) (ls : List BLine) : Option (Out × List String) :=
+  match treeOf (programLines ls) with
+  | some cs =>
+      match execBs fuel cs ⟨Store.set (fun _ => "") "_e" "0", []⟩ with
+      | some (o, c) => some (o, c.out)
+      | none => none
+  | none => none
+
 end Tsh.SemB
